@@ -240,8 +240,17 @@ struct EnvW {
     rng: Xoroshiro128StarStar,
 }
 
+thread_local! {
+    /// step size of the environments of the trace set being generated
+    static STEP_SIZE: std::cell::Cell<u64> = std::cell::Cell::new(100);
+}
+
+fn step_size() -> u64 {
+    STEP_SIZE.with(|s| s.get())
+}
+
 fn env_new(seed: u64) -> EnvW {
-    EnvW { env: Env::new(0, TICK, 100, true), rng: Xoroshiro128StarStar::seed_from_u64(seed) }
+    EnvW { env: Env::new(0, TICK, step_size(), true), rng: Xoroshiro128StarStar::seed_from_u64(seed) }
 }
 
 fn env_apply(w: &mut EnvW, c: &EnvCall) -> (Value, Option<&'static str>) {
@@ -360,6 +369,8 @@ fn env_alphabet(n_orders: usize, with_overflow: bool, rich: bool, lo: u32) -> Ve
         v.push(EnvCall::Modify { id, price: None, vol: None });
         if rich {
             v.push(EnvCall::Modify { id, price: None, vol: Some(1) });
+            // an unusual but accepted argument: the order stays active with nothing left
+            v.push(EnvCall::Modify { id, price: None, vol: Some(0) });
         }
     }
     v.push(EnvCall::Step);
@@ -410,7 +421,7 @@ fn env_rec(w: &mut Writer, seed: u64, hist: &mut Vec<EnvCall>, depth_left: usize
         }
         let st = env_state(&e);
         let drain = env_drain(&mut e);
-        let line = json!({"id": id, "kind": "env", "seed": seed, "tick": TICK, "step_size": 100, "calls": calls_json, "exp": {"ret": ret, "exc": exc, "state": st, "drain": drain}});
+        let line = json!({"id": id, "kind": "env", "seed": seed, "tick": TICK, "step_size": step_size(), "calls": calls_json, "exp": {"ret": ret, "exc": exc, "state": st, "drain": drain}});
         writeln!(w.f, "{}", line).unwrap();
         if exc.is_none() {
             env_rec(w, seed, hist, depth_left - 1, rich, overflow, lo, max_ids);
@@ -442,27 +453,64 @@ fn build_ext(out: &mut Outcome) -> bool {
 }
 
 fn run_driver(out: &mut Outcome, mode: &str, dir: &str) -> Option<Value> {
-    let res = format!("{}/result.json", dir);
-    let st = std::process::Command::new("python3-vt")
-        .arg("/verif/py/driver.py")
-        .arg(mode)
-        .arg(dir)
-        .arg(&res)
-        .status();
-    match st {
-        Ok(s) if s.success() => {}
-        other => {
-            out.machinery_errors.push(format!("python driver failed: {:?}", other));
-            return None;
-        }
+    // the interpreter is single-threaded: the trace file is replayed by several driver
+    // processes, each taking every k-th trace
+    let shards = crate::util::n_threads().clamp(1, 12);
+    let mut kids = Vec::new();
+    for i in 0..shards {
+        let res = format!("{}/result-{}.json", dir, i);
+        let ch = std::process::Command::new("python3-vt")
+            .arg("/verif/py/driver.py")
+            .arg(mode)
+            .arg(dir)
+            .arg(&res)
+            .arg(i.to_string())
+            .arg(shards.to_string())
+            .spawn();
+        kids.push((res, ch));
     }
-    match std::fs::read_to_string(&res).ok().and_then(|s| serde_json::from_str::<Value>(&s).ok()) {
-        Some(v) => Some(v),
-        None => {
+    let mut merged = json!({"traces": 0u64, "calls": 0u64, "failures": [], "counters": {}});
+    let mut by_sig: std::collections::BTreeMap<String, Value> = Default::default();
+    for (res, ch) in kids {
+        let st = ch.and_then(|mut c| c.wait());
+        match st {
+            Ok(s) if s.success() => {}
+            other => {
+                out.machinery_errors.push(format!("python driver failed: {:?}", other));
+                return None;
+            }
+        }
+        let Some(v) = std::fs::read_to_string(&res).ok().and_then(|s| serde_json::from_str::<Value>(&s).ok()) else {
             out.machinery_errors.push("python driver wrote no readable result".into());
-            None
+            return None;
+        };
+        for k in ["traces", "calls"] {
+            merged[k] = json!(merged[k].as_u64().unwrap_or(0) + v[k].as_u64().unwrap_or(0));
+        }
+        for k in ["python", "numpy", "module"] {
+            merged[k] = v[k].clone();
+        }
+        if let Some(c) = v["counters"].as_object() {
+            for (k, n) in c {
+                let cur = merged["counters"][k].as_u64().unwrap_or(0);
+                merged["counters"][k] = json!(cur + n.as_u64().unwrap_or(0));
+            }
+        }
+        if let Some(fs) = v["failures"].as_array() {
+            for f in fs {
+                let sig = f["sig"].as_str().unwrap_or("python/unknown").to_string();
+                let len = |x: &Value| x["trace"]["calls"].as_array().map_or(usize::MAX, |a| a.len());
+                match by_sig.get(&sig) {
+                    Some(old) if len(old) <= len(f) => {}
+                    _ => {
+                        by_sig.insert(sig, f.clone());
+                    }
+                }
+            }
         }
     }
+    merged["failures"] = json!(by_sig.into_values().collect::<Vec<_>>());
+    Some(merged)
 }
 
 fn absorb_driver(out: &mut Outcome, v: &Value) {
@@ -492,11 +540,17 @@ pub fn c18(tier: &str) -> i32 {
     let dir = work_dir("c18");
     let mut w = Writer { f: std::io::BufWriter::new(std::fs::File::create(format!("{}/traces.jsonl", dir)).unwrap()), n: 0, calls: 0 };
     let mut rust_snaps = Vec::new();
-    ob_rec(&mut w, &dir, &mut Vec::new(), if t { 4 } else { 3 }, if t { 3 } else { 2 }, &mut rust_snaps);
+    ob_rec(&mut w, &dir, &mut Vec::new(), if t { 4 } else { 3 }, 3, &mut rust_snaps);
     let n_ob = w.n;
     for seed in [0u64, 1, 101] {
         env_rec(&mut w, seed, &mut Vec::new(), if t { 5 } else { 4 }, seed == 0, seed != 1, 2, usize::MAX);
     }
+    // degenerate but accepted step sizes: the clock does not move (0) or moves by less than a batch (1)
+    for (ss, seed) in [(0u64, 5u64), (1, 6)] {
+        STEP_SIZE.with(|s| s.set(ss));
+        env_rec(&mut w, seed, &mut Vec::new(), if t { 5 } else { 4 }, false, false, 2, usize::MAX);
+    }
+    STEP_SIZE.with(|s| s.set(100));
     w.f.flush().unwrap();
     let n_total = w.n;
     out.set("states", json!(n_total));
@@ -521,6 +575,17 @@ pub fn c18(tier: &str) -> i32 {
                             e.describe_diff(&a),
                             json!({"trace_id": id}),
                         );
+                    } else {
+                        // indistinguishable under continuation too: sweep both
+                        let (mut b, mut want) = (b, want);
+                        let (da, de) = (ob_drain(&mut b), ob_drain(&mut want));
+                        if da != de {
+                            out.fail_other(
+                                "python/snapshot-written-by-python-executes-differently-in-rust",
+                                format!("sweeping the loaded book executes {} but the original {}", da, de),
+                                json!({"trace_id": id}),
+                            );
+                        }
                     }
                 }
                 Ok(Err(e)) => out.fail_other("python/snapshot-written-by-python-rejected-by-rust", e.to_string(), json!({"trace_id": id})),
